@@ -283,3 +283,35 @@ func InFragment(x interface{}) bool {
 func HasVarString(x interface{}) bool {
 	return len(ref.VarsOf(x, nil)) > 0
 }
+
+// InFragmentLoose is InFragment for data (events/facts): heterogeneous scalar
+// arrays are allowed (JSON permits them), nested arrays and nulls in arrays
+// are not.
+func InFragmentLoose(x interface{}) bool {
+	switch v := x.(type) {
+	case map[string]interface{}:
+		for _, e := range v {
+			if !InFragmentLoose(e) {
+				return false
+			}
+		}
+	case []interface{}:
+		seen := map[string]bool{}
+		for _, e := range v {
+			switch ee := e.(type) {
+			case []interface{}, nil:
+				return false
+			case map[string]interface{}:
+				if !InFragmentLoose(ee) {
+					return false
+				}
+			default:
+				if seen[ref.Canon(e)] {
+					return false
+				}
+				seen[ref.Canon(e)] = true
+			}
+		}
+	}
+	return true
+}
